@@ -57,6 +57,7 @@ var checks = map[string][]HarnessSpec{
 		{Name: "verifC11NewConfig", Pkg: ".", Labels: []string{"newconfig"}},
 		{Name: "verifC11ParseRaw", Pkg: ".", Labels: []string{"raw", "raw-valid"}},
 		{Name: "verifC11TLSClient", Pkg: ".", Labels: []string{"tls-client"}},
+		{Name: "verifC11TLSServer", Pkg: ".", Labels: []string{"tls-server"}},
 	},
 	"C12": {
 		{Name: "verifC12Raw", Pkg: "./dns", Labels: []string{"decoded", "rejected"}, Quick: TierOpts{LoopLimit: 300}, Thorough: TierOpts{LoopLimit: 300}},
